@@ -183,9 +183,23 @@ pub fn scenario(seed: u64, pool: &[Enr], rep: &mut Report) {
             }
             // ---- FINDNODE ----
             let mut ds: Vec<u64> = Vec::new();
-            match rng.below(8) {
+            match rng.below(9) {
                 0 => {}
                 1 => ds.push(0),
+                8 => {
+                    // every valid distance, 0 and 256 included, in some order; sometimes with a few more
+                    ds = (0..=256u64).collect();
+                    match rng.below(3) {
+                        0 => {}
+                        1 => ds.reverse(),
+                        _ => rng.shuffle(&mut ds),
+                    }
+                    for _ in 0..rng.usize(4) {
+                        let at = rng.usize(ds.len());
+                        let extra = if rng.bool() { rng.below(257) } else { 257 + rng.below(50) };
+                        ds.insert(at, extra);
+                    }
+                }
                 2 => {
                     // long list: up to ~600 entries
                     let n = 100 + rng.usize(500);
@@ -196,9 +210,17 @@ pub fn scenario(seed: u64, pool: &[Enr], rep: &mut Report) {
                 _ => {
                     let n = 1 + rng.usize(6);
                     for _ in 0..n {
-                        ds.push(match rng.below(5) {
+                        ds.push(match rng.below(6) {
                             0 => 0,
                             1 => rng.below(257),
+                            // far outside the valid range (the wire decoder refuses such a request;
+                            // the service is handed it directly here), also values that equal an
+                            // occupied distance after narrowing
+                            2 => {
+                                let occupied = dists[rng.usize(dists.len())];
+                                let bit = *rng.pick(&[8u32, 16, 32, 48, 63]);
+                                *rng.pick(&[257u64, 1000, u64::MAX, occupied + (1u64 << bit), occupied + (1u64 << bit)])
+                            }
                             _ => dists[rng.usize(dists.len())],
                         });
                     }
